@@ -286,4 +286,22 @@ def recvDatagram (chk : Bytes → Bool) (r : Rules) (maxlen : Nat) (n : Node) (m
     | .error e => (⟨known', n.st⟩, some (.error e))
   else (⟨known', n.st⟩, none)
 
+/-- `add_outbound_message`: the id of an own message (answer, Hello, Probe, …) is registered in the same window -/
+def registerOwn (maxlen : Nat) (n : Node) (id : String) : Node :=
+  { n with known := (UdpRepeat.step maxlen n.known (.out id)).1 }
+
+/-- what happens at a node, in order: a datagram is read from the queue, or an own message is queued for sending -/
+inductive NodeEv
+  | dg (mid : String) (m : Msg)
+  | own (id : String)
+deriving Repr
+
+def nodeStep (chk : Bytes → Bool) (r : Rules) (maxlen : Nat) (n : Node) : NodeEv → Node
+  | .dg mid m => (recvDatagram chk r maxlen n mid m).1
+  | .own id => registerOwn maxlen n id
+
+def runNode (chk : Bytes → Bool) (r : Rules) (maxlen : Nat) (n : Node) : List NodeEv → Node
+  | [] => n
+  | e :: es => runNode chk r maxlen (nodeStep chk r maxlen n e) es
+
 end Sdc.Discovery
